@@ -36,7 +36,7 @@ class Node:
         self.kind, self.recipe, self.obj, self.children, self.extra = kind, recipe, obj, list(children), extra
 
 
-GLOM_FAULTS = ('UGlomErr', 'UGlomErrInit', 'UGlomMixed')
+GLOM_FAULTS = ('UGlomErr', 'UGlomErrInit', 'UGlomMixed', 'UGlomArity', 'UGlomKwOnly', 'UGlomRewrite', 'UGlomLookup')
 
 
 def build(G, B, r):
@@ -48,6 +48,8 @@ def build(G, B, r):
         return Node('T', r, B.t_expr(r[1], r[2]))
     if k == 'Val':
         return Node('Val', r, G.Val(B.value(r[1])))
+    if k == 'fn':
+        return Node('fn', r, B.func(r[1]))
     if k == 'probe':
         return Node('probe', r, B.probe(*r[1:]))
     if k == 'dict':
@@ -147,6 +149,13 @@ class Walker:
             return cur
         if k == 'Val':
             return n.recipe[1]
+        if k == 'fn':
+            # pure conversions to an EQUAL but distinct object: the trace must show what the next spec
+            # really received (1.0, not 1)
+            f = {'float': float, 'ident': lambda x: x}[n.recipe[1]]
+            if not isinstance(t, (int, float)) or isinstance(t, bool):
+                raise NotImplementedError('fn on non-number')
+            return f(t)
         if k == 'probe':
             pid = n.recipe[1]
             nth = self.counts.get(pid, 0)
@@ -173,7 +182,7 @@ class Walker:
             for c in n.children:
                 try:
                     v = self.ev(c, t)
-                    if 'skip' in n.extra and v == n.extra['skip'] and type(v) is type(n.extra['skip']):
+                    if 'skip' in n.extra and v == n.extra['skip']:
                         last_failed = False     # a skipped VALUE: evaluated, not failed, try the next one
                         continue
                     return v
